@@ -11,6 +11,7 @@ import (
 	"time"
 
 	"verif/harness/gen"
+	"verif/harness/ref"
 	"verif/harness/render"
 	"verif/harness/spec"
 )
@@ -64,9 +65,17 @@ func pickGrammar0(r *rand.Rand, idx int, usable bool, cfg gen.RandCfg) *spec.Gra
 		json.Unmarshal(b, &g)
 		return &g
 	}
-	if usable && idx%200 == 57 {
-		// close to the built-in limit of 2000 parser states (1500-2400 states)
-		return gen.HugeN(r, 800+r.Intn(150))
+	if usable && idx%400 == 57 {
+		// close to, but below, the built-in limit of 2000 parser states (1500-1990 states)
+		for n := 800 + r.Intn(150); ; n -= 40 {
+			g := gen.HugeN(r, n)
+			if ref.BuildLR0(g.ToRef(), 1990) != nil {
+				return g
+			}
+		}
+	}
+	if usable && idx%10 == 8 {
+		return gen.Optionals(r)
 	}
 	if usable && idx%5 == 3 {
 		return gen.Contexts(r)
@@ -93,7 +102,7 @@ func pickGrammar0(r *rand.Rand, idx int, usable bool, cfg gen.RandCfg) *spec.Gra
 	}
 	if usable && idx%7 == 5 {
 		// rules of 10-12 symbols and a dozen or more rules
-		return gen.Rich(r, gen.RichCfg{LongRhs: true})
+		return gen.Rich(r, gen.RichCfg{LongRhs: true, Names: idx%2 == 1})
 	}
 	if usable {
 		return gen.RandUsable(r, cfg)
